@@ -72,12 +72,15 @@ impl PathResolver for DefaultPathResolver {
     }
 
     fn related_path(&self, p1: &[Symbol], p2: &[Symbol]) -> FastStr {
-        if p1 == p2 {
-            return p2.last().unwrap().clone().0;
-        }
         let mut i = 0;
         while i < p1.len() && i < p2.len() && p1[i] == p2[i] {
             i += 1
+        }
+        // The whole of `p2` is a prefix of the current module path `p1`: the target is a sibling of one of
+        // the enclosing modules (or of the current module itself) and has that module's name. Climb one
+        // level more, so that the path ends in the target's name and not in `super`, which names a module.
+        if i == p2.len() && i > 0 {
+            i -= 1;
         }
         let mut segs = vec![];
 
